@@ -9,6 +9,8 @@ holds, `Err` leaves the state untouched, `Ok` changes exactly the documented fie
 import RubatoModel.Fft
 import RubatoProofs.Lemmas.RatBridge
 import RubatoProofs.Lemmas.FormulaTie
+import RubatoProofs.Props.C10
+import RubatoProofs.Async.OddLength
 import Mathlib.Tactic.FieldSimp
 
 set_option linter.unusedSectionVars false
@@ -186,5 +188,206 @@ theorem relative_setter_is_the_source_text {ρ σ : Type} [RNum ρ] [SNum ρ σ]
     s.setRatioRelative rel ramp = s.setRatio (Formulas.fastIn_rel_new_ratio s.orig rel) ramp ∧
     Formulas.fastIn_rel_new_ratio s.orig rel = Formulas.sincOut_rel_new_ratio s.orig rel :=
   ⟨rfl, rfl⟩
+
+end Rubato.C12
+
+/-! ### History level: the ratios a resampler ever works with are ones the setter accepted
+
+The per-call theorems above say what ONE setter call does.  The invariant below is what a user relies on over a
+whole session: after ANY sequence of processing calls (successful, failed or crashed), absolute and relative ratio
+changes (accepted or rejected, stepped or ramped), chunk-size changes and resets, both the ratio in force and the
+target of a pending ramp are either the construction-time ratio or a value that passed the range test — and
+`resample_ratio_original` and `max_relative_ratio`, against which the test is made, never change. -/
+namespace Rubato.C12
+open Rubato
+variable {ρ σ : Type} [RNum ρ] [SNum ρ σ]
+
+/-- a ratio that is the constructor's or passed the range test of this instance -/
+def Accepted (s : AState ρ σ) (r : ρ) : Prop := r = s.orig ∨ ratioInRange r s.orig s.maxRel = true
+
+/-- both the ratio in force and the ramp target were accepted -/
+def RatiosOK (s : AState ρ σ) : Prop := Accepted s s.ratio ∧ Accepted s s.target
+
+/-- what a processing call does to the two ratios: the target stays, the ratio in force stays or reaches the target -/
+structure RatioFrame (s s' : AState ρ σ) : Prop where
+  target : s'.target = s.target
+  ratio : s'.ratio = s.ratio ∨ s'.ratio = s.target
+
+theorem finishIn_ratioFrame (s : AState ρ σ) (mask : List Bool) (fuel : Nat) :
+    RatioFrame s (s.finishIn mask fuel).1 := by
+  unfold AState.finishIn
+  simp only []
+  split
+  · exact ⟨rfl, Or.inl rfl⟩
+  · split
+    · exact ⟨rfl, Or.inl rfl⟩
+    · exact ⟨rfl, Or.inr rfl⟩
+
+theorem finishOut_ratioFrame (s : AState ρ σ) (mask : List Bool) :
+    RatioFrame s (s.finishOut mask).1 := by
+  unfold AState.finishOut
+  simp only []
+  split
+  · exact ⟨rfl, Or.inl rfl⟩
+  · exact ⟨rfl, Or.inr rfl⟩
+
+theorem RatioFrame.of_eq {m s s' : AState ρ σ} (h : RatioFrame m s') (ht : m.target = s.target)
+    (hr : m.ratio = s.ratio) : RatioFrame s s' :=
+  ⟨h.target.trans ht, by rcases h.ratio with e | e; exact Or.inl (e.trans hr); exact Or.inr (e.trans ht)⟩
+
+theorem process_ratioFrame (s : AState ρ σ) (a : CallArgs σ) : RatioFrame s (s.process a).1 := by
+  unfold AState.process
+  split
+  · exact ⟨rfl, Or.inl rfl⟩
+  · simp only []
+    split
+    · exact ⟨rfl, Or.inl rfl⟩
+    · split
+      · exact ⟨rfl, Or.inl rfl⟩
+      · split
+        · exact RatioFrame.of_eq (finishIn_ratioFrame _ _ _) rfl rfl
+        · exact RatioFrame.of_eq (finishOut_ratioFrame _ _) rfl rfl
+
+/-- `set_chunk_size` touches neither ratio nor the reference values -/
+theorem setChunk_ratios (s : AState ρ σ) (n : Nat) :
+    (s.setChunk n).1.orig = s.orig ∧ (s.setChunk n).1.maxRel = s.maxRel ∧
+    (s.setChunk n).1.ratio = s.ratio ∧ (s.setChunk n).1.target = s.target := by
+  unfold AState.setChunk
+  cases s.kind
+  · exact ⟨rfl, rfl, rfl, rfl⟩
+  · exact ⟨rfl, rfl, rfl, rfl⟩
+  · simp only []; split <;> exact ⟨rfl, rfl, rfl, rfl⟩
+  · simp only []; split <;> exact ⟨rfl, rfl, rfl, rfl⟩
+
+/-- one operation keeps `orig`, `maxRel` and the invariant -/
+theorem step_ratiosOK (s : AState ρ σ) (h : RatiosOK s) (op : AOp ρ σ) :
+    (s.step op).orig = s.orig ∧ (s.step op).maxRel = s.maxRel ∧ RatiosOK (s.step op) := by
+  cases op with
+  | proc a =>
+    have hf := process_frame s a
+    have hr := process_ratioFrame s a
+    show ((s.process a).1).orig = _ ∧ ((s.process a).1).maxRel = _ ∧
+      (Accepted (s.process a).1 (s.process a).1.ratio ∧ Accepted (s.process a).1 (s.process a).1.target)
+    refine ⟨hf.orig, hf.maxRel, ?_, ?_⟩
+    · unfold Accepted
+      rw [hf.orig, hf.maxRel]
+      rcases hr.ratio with e | e <;> rw [e]
+      · exact h.1
+      · exact h.2
+    · unfold Accepted
+      rw [hf.orig, hf.maxRel, hr.target]
+      exact h.2
+  | ratio r ramp =>
+    show ((s.setRatio r ramp).1).orig = _ ∧ ((s.setRatio r ramp).1).maxRel = _ ∧ RatiosOK (s.setRatio r ramp).1
+    by_cases hr : ratioInRange r s.orig s.maxRel = true
+    · have ha := setRatio_accepted s r ramp hr
+      simp only [] at ha
+      obtain ⟨ht, hra, -, -, -, -, -, -, ho, hm, -⟩ := ha
+      refine ⟨ho, hm, ?_, ?_⟩
+      · show Accepted _ _
+        unfold Accepted
+        rw [ho, hm, hra]
+        cases ramp
+        · exact Or.inr hr
+        · exact h.1
+      · show Accepted _ _
+        unfold Accepted
+        rw [ho, hm, ht]
+        exact Or.inr hr
+    · have hu := setRatio_rejected_unchanged s r ramp (by
+        intro hok; exact hr ((setRatio_ok_iff s r ramp).1 hok))
+      rw [hu]; exact ⟨rfl, rfl, h⟩
+  | rel x ramp =>
+    show ((s.setRatio (s.orig * x) ramp).1).orig = _ ∧ ((s.setRatio (s.orig * x) ramp).1).maxRel = _ ∧
+      RatiosOK (s.setRatio (s.orig * x) ramp).1
+    by_cases hr : ratioInRange (s.orig * x) s.orig s.maxRel = true
+    · have ha := setRatio_accepted s (s.orig * x) ramp hr
+      simp only [] at ha
+      obtain ⟨ht, hra, -, -, -, -, -, -, ho, hm, -⟩ := ha
+      refine ⟨ho, hm, ?_, ?_⟩
+      · show Accepted _ _
+        unfold Accepted
+        rw [ho, hm, hra]
+        cases ramp
+        · exact Or.inr hr
+        · exact h.1
+      · show Accepted _ _
+        unfold Accepted
+        rw [ho, hm, ht]
+        exact Or.inr hr
+    · have hu := setRatio_rejected_unchanged s (s.orig * x) ramp (by
+        intro hok; exact hr ((setRatio_ok_iff s _ ramp).1 hok))
+      rw [hu]; exact ⟨rfl, rfl, h⟩
+  | chunk n =>
+    obtain ⟨ho, hm, hr, ht⟩ := setChunk_ratios s n
+    show ((s.setChunk n).1).orig = _ ∧ ((s.setChunk n).1).maxRel = _ ∧
+      (Accepted (s.setChunk n).1 (s.setChunk n).1.ratio ∧ Accepted (s.setChunk n).1 (s.setChunk n).1.target)
+    refine ⟨ho, hm, ?_, ?_⟩
+    · unfold Accepted; rw [ho, hm, hr]; exact h.1
+    · unfold Accepted; rw [ho, hm, ht]; exact h.2
+  | reset =>
+    show (s.reset).orig = _ ∧ (s.reset).maxRel = _ ∧ RatiosOK s.reset
+    unfold AState.reset
+    cases hk : s.kind <;> exact ⟨rfl, rfl, Or.inl rfl, Or.inl rfl⟩
+
+/-- **C12, session level.**  From any state whose two ratios were accepted (the constructor's state is one, below),
+after any sequence of operations: the reference values of the range test are unchanged and both ratios are accepted. -/
+theorem ratios_accepted_after_any_history (s : AState ρ σ) (h : RatiosOK s) (ops : List (AOp ρ σ)) :
+    (s.run ops).orig = s.orig ∧ (s.run ops).maxRel = s.maxRel ∧ RatiosOK (s.run ops) := by
+  induction ops generalizing s with
+  | nil => exact ⟨rfl, rfl, h⟩
+  | cons op ops ih =>
+    obtain ⟨ho, hm, hk⟩ := step_ratiosOK s h op
+    obtain ⟨ho', hm', hk'⟩ := ih (s.step op) hk
+    exact ⟨ho'.trans ho, hm'.trans hm, hk'⟩
+
+/-- the constructor's state satisfies the invariant -/
+theorem init_ratiosOK (kind : AKind) (ratio maxRel : ρ) (deg : Degree) (sint : SincInterp) (ip : Interp σ)
+    (chunk nch : Nat) (s0 : AState ρ σ) (h : AState.init kind ratio maxRel deg sint ip chunk nch = .ok s0) :
+    RatiosOK s0 := by
+  have hr := C10.reset_init kind ratio maxRel deg sint ip chunk nch s0 h
+  rw [← hr]
+  unfold AState.reset
+  cases hk : s0.kind <;> exact ⟨Or.inl rfl, Or.inl rfl⟩
+
+end Rubato.C12
+
+namespace Rubato.C12
+open Rubato
+
+/-- **C12, session level, exact arithmetic.**  In ℚ, for a resampler built with ratio `orig > 0` and
+`max_relative_ratio ≥ 1`, after any history the ratio in force and the ramp target lie in the documented closed
+interval `[orig/max, orig·max]`. -/
+theorem ratios_in_documented_interval (kind : AKind) (ratio maxRel : ℚ) (deg : Degree) (sint : SincInterp)
+    (ip : Interp ℚ) (chunk nch : Nat) (s0 : AState ℚ ℚ)
+    (h : AState.init kind ratio maxRel deg sint ip chunk nch = .ok s0)
+    (ho : 0 < s0.orig) (hm : 1 ≤ s0.maxRel) (ops : List (AOp ℚ ℚ)) :
+    let s := s0.run ops
+    (s0.orig / s0.maxRel ≤ s.ratio ∧ s.ratio ≤ s0.orig * s0.maxRel) ∧
+    (s0.orig / s0.maxRel ≤ s.target ∧ s.target ≤ s0.orig * s0.maxRel) := by
+  intro s
+  obtain ⟨eo, em, hk⟩ := ratios_accepted_after_any_history s0
+    (init_ratiosOK kind ratio maxRel deg sint ip chunk nch s0 h) ops
+  have hm0 : 0 < s0.maxRel := by linarith
+  have key : ∀ r : ℚ, Accepted (s0.run ops) r → s0.orig / s0.maxRel ≤ r ∧ r ≤ s0.orig * s0.maxRel := by
+    intro r hr
+    unfold Accepted at hr
+    rw [eo, em] at hr
+    rcases hr with e | e
+    · subst e
+      constructor
+      · exact div_le_self ho.le hm
+      · exact le_mul_of_one_le_right ho.le hm
+    · exact (ratioInRange_exact r s0.orig s0.maxRel ho hm0).1 e
+  exact ⟨key _ hk.1, key _ hk.2⟩
+
+/-- non-vacuity: the hypotheses are met by a state the constructor really returns (`SincFixedIn`, ratio 4,
+`max_resample_ratio_relative = 1`; `OddLength.d18_init`), followed by a history with an accepted ramp, a rejected
+step, a processing call and a reset -/
+example (a : CallArgs ℚ) :
+    let s := OddLength.d18S0.run [.ratio 4 true, .ratio 5 false, .proc a, .rel 1 false, .reset]
+    ((4 : ℚ) / 1 ≤ s.ratio ∧ s.ratio ≤ 4 * 1) ∧ ((4 : ℚ) / 1 ≤ s.target ∧ s.target ≤ 4 * 1) :=
+  ratios_in_documented_interval _ _ _ _ _ _ _ _ OddLength.d18S0 OddLength.d18_init
+    (by norm_num [OddLength.d18S0, OddLength.d18State]) (by norm_num [OddLength.d18S0, OddLength.d18State]) _
 
 end Rubato.C12
